@@ -34,6 +34,8 @@ BOUNDS = {
 OUTSIDE = ("floating-point conditioning (cond 1e10), LAPACK's and scipy-nnls' own numerics (contract stubs), rotations by "
            "exactly pi in the symbolic-Q family (covered by the rational family)")
 
+FLOAT_SELFCHECK = True
+
 
 def preload():
     import glotaran.optimization.estimation_provider  # noqa: F401
@@ -312,7 +314,21 @@ def replay(data):
 
     cfg = data.get("item") or data["cfg"]["items"][0]
     if cfg["kind"] == "dispatch":
-        return True, "dispatch table or rejection differs from the documented one (see obligation)"
+        import glotaran.optimization.estimation_provider as ep
+
+        doc = {"variable_projection": residual_variable_projection, "non_negative_least_squares": residual_nnls}
+        if any(ep.SUPPORTED_RESIUDAL_FUNCTIONS.get(k) is not v for k, v in doc.items()) or len(ep.SUPPORTED_RESIUDAL_FUNCTIONS) != 2:
+            return True, f"residual function table is {ep.SUPPORTED_RESIUDAL_FUNCTIONS}"
+        for name, f in doc.items():
+            prov = ep.EstimationProvider(types.SimpleNamespace(residual_function=name, model=None, parameters=None))
+            A, y = np.array([[1.0], [2.0]]), np.array([1.0, 1.0])
+            if not np.allclose(prov.calculate_residual(A.copy(), y.copy())[1], f(A.copy(), y.copy())[1]):
+                return True, f"group residual function {name!r} does not invoke {f.__name__}"
+        try:
+            ep.EstimationProvider(types.SimpleNamespace(residual_function="median_fit", model=None, parameters=None))
+            return True, "unknown residual function accepted"
+        except ep.UnsupportedResidualFunctionError:
+            return False, "dispatch as documented"
     rng = np.random.default_rng(1)
     m, n = cfg["m"], cfg["n"]
     for _ in range(20):
